@@ -45,7 +45,10 @@ QuickKinds == <<
   KVec(N(0), N(255), <<0, 1, 255, 256>>, 20), KVec(N(1), N(255), <<1, 0, 255>>, 30),
   KVec(N(0), N(256), <<0, 255, 256, 257>>, 40), KVec(N(2), N(4), <<2, 1, 4, 5>>, 50),
   KVec(N(0), N(65535), <<0, 3>>, 60), KVec(N(0), MaxNum(3), <<0, 2>>, 70), KVec(N(0), PowNum(3), <<0, 2>>, 80),
-  KVec(N(0), MaxNum(8), <<0, 2>>, 90) >>
+  KVec(N(0), MaxNum(8), <<0, 2>>, 90),
+  \* (appended: the indices above are used by SmallIdx and by MCTLSCodecConc)  the lower edge of the one-byte class:
+  \* maxval:0 and <0..0> beside every other kind, in both positions (family "pair")
+  KEM(N(0)), KVec(N(0), N(0), <<0, 1, 255, 256>>, 95) >>
 MoreKinds == <<
   KES(4), KES(5), KES(6), KES(7),
   KEM(N(255)), KEM(N(65535)), KEM(MaxNum(3)), KEM(MaxNum(4)), KEM(PowNum(4)), KEM(MaxNum(5)), KEM(PowNum(5)),
@@ -75,7 +78,10 @@ ArmKinds == <<
   KV(Vec(N(0), N(255), Byte), <<VBytes(Pay(3, 5)), VBytes(<<>>)>>),
   KV(Arr(3), <<VBytes(Pay(3, 9))>>),
   KV(Inner, <<InnerVal(1), InnerVal(2)>>),
-  KV(EnumSize(2), NV(<< Seq123(2) >>)) >>
+  KV(EnumSize(2), NV(<< Seq123(2) >>)),
+  \* an arm whose bound is 0 in every layout: the tag of an arm carries selector: and val: too, and its prefix is still
+  \* one byte (every bound x every carrier as an arm: family "bound", places 4 and 5)
+  KV(Vec(N(0), N(0), Byte), <<VBytes(<<>>), VBytes(Pay(2, 6))>>) >>
 NA == Len(ArmKinds)
 SelKinds == << EnumSize(1), EnumMax(N(65535)), EnumMax(N(300)), EnumSize(8) >>
 \* the value carried by arm number a of a selector: small for 1-byte selectors, across the byte boundary otherwise
@@ -112,6 +118,55 @@ BigSpecs == <<
 BigNeighbours == << U(1), U(3), EnumSize(2) >>
 BigNVal(j) == VNum(Seq123(BigNeighbours[j].w))
 
+(* ---------- tag bounds: every boundary of the width rule x every spelling x every place a tag can stand ---------- *)
+\* "the number of bytes needed for values up to the bound, never less than one": both ends of every width class
+Bounds == << N(0), N(1), N(255), N(256), MaxNum(2), PowNum(2), MaxNum(3), PowNum(3), MaxNum(4), PowNum(4),
+             MaxNum(5), PowNum(5), MaxNum(6), PowNum(6), MaxNum(7), PowNum(7), MaxNum(8) >>
+\* carriers of a bound: 1 enum maxval:b   2 opaque<0..b> minlen:0,maxlen:b   3 opaque<0..b> maxlen:b
+\*                      4 opaque<0..b> maxlen:b,minlen:0   5 uint16<0..b> (the general, non-opaque vector path)
+\*                      6 opaque<b..b> minlen:b,maxlen:b (the degenerate range: minlen = maxlen is not "inverted")
+NBoundForms == 6
+\* places: 1 the params of MarshalWithParams / UnmarshalWithParams   2 the only member   3 between a uint8 and a uint16
+\*         (exact framing, nothing left over)   4 the chosen arm of a select   5 an arm that is not chosen
+NBoundPlaces == 5
+\* payload lengths tried for a vector bound (bytes): 0, the bound and its neighbours where a payload of that size is practical
+BoundLens(b) ==
+  CASE b = N(0) -> <<0, 1, 255, 256>>
+    [] b = N(1) -> <<0, 1, 2, 255>>
+    [] b = N(255) -> <<0, 254, 255, 256>>
+    [] b = N(256) -> <<0, 255, 256, 257>>
+    [] b = MaxNum(2) -> <<0, 2, 65535, 65536>>
+    [] b = PowNum(2) -> <<0, 65535, 65536, 65537>>
+    [] OTHER -> <<0, 1, 2, 300>>
+BoundType(bi, form) ==
+  LET b == Bounds[bi] IN
+  CASE form = 1 -> EnumMax(b)
+    [] form = 2 -> VecForm(N(0), b, Byte, "minmax")
+    [] form = 3 -> VecForm(N(0), b, Byte, "max")
+    [] form = 4 -> VecForm(N(0), b, Byte, "maxmin")
+    [] form = 5 -> VecForm(N(0), b, U(2), "max")
+    [] form = 6 -> VecForm(b, b, Byte, "minmax")
+BoundVal(bi, form, vi) ==
+  LET b == Bounds[bi]  w == BoundWidth(b) IN
+  CASE form = 1 -> VNum((<< <<>>, b, Inc(b), MaxNum(w) >>)[vi])       \* Inc(b) may need w+1 bytes: no encoding
+    \* 0 .. 3 elements (the byte bounds at the ends of the width are the opaque forms' business; long lists cost TLC minutes)
+    [] form = 5 -> VList([e \in 1..(vi - 1) |-> VNum(<<e, 7 * e>>)])
+    [] OTHER -> VBytes(Pay(BoundLens(b)[vi], 17 + 5 * vi))
+BoundSel == EnumMax(N(1))
+BoundFields(bi, form, place) ==
+  LET T == BoundType(bi, form) IN
+  CASE place = 2 -> <<Field("A", T)>>
+    [] place = 3 -> <<Field("P", U(1)), Field("A", T), Field("R", U(2))>>
+    [] place = 4 -> <<Field("Sel", BoundSel), Arm("X", T, "Sel", N(0)), Arm("Y", U(2), "Sel", N(1)), Field("R", U(2))>>
+    [] place = 5 -> <<Field("Sel", BoundSel), Arm("X", U(2), "Sel", N(0)), Arm("Y", T, "Sel", N(1)), Field("R", U(2))>>
+BoundVals(bi, form, place, vi) ==
+  LET v == BoundVal(bi, form, vi) IN
+  CASE place = 2 -> <<v>>
+    [] place = 3 -> <<VNum(<<7>>), v, VNum(Seq123(2))>>
+    [] place = 4 -> <<VNum(<<>>), v, VNone, VNum(Seq123(2))>>
+    \* the arm with the bound is not chosen; value 4: it is present although not chosen (no encoding)
+    [] place = 5 -> <<VNum(<<>>), VNum(Seq123(2)), IF vi = 4 THEN v ELSE VNone, VNum(<<3, 4>>)>>
+
 (* ---------- families of type shapes ---------- *)
 Idx(fam, i, j, l, vi) == [fam |-> fam, i |-> i, j |-> j, l |-> l, vi |-> vi]
 ElemBounds == << <<N(0), N(255)>>, <<N(3), N(9)>> >>      \* vectors of structs / integers: byte bounds
@@ -125,6 +180,8 @@ Families ==
   \cup {Idx("vecu", i, j, l, vi) : i \in 1..NS, j \in {2, 3, 4, 8}, l \in 1..2, vi \in 1..4}
   \cup {Idx("variant", (sk - 1) * 4 + form, (a1 - 1) * NA + ((a1 - 1 + d) % NA) + 1, i, vi) :
            sk \in 1..Len(SelKinds), form \in 1..4, a1 \in 1..NA, d \in 0..1, i \in {1, 3}, vi \in 1..6}
+  \cup {x \in {Idx("bound", bi, form, place, vi) : bi \in 1..Len(Bounds), form \in 1..NBoundForms, place \in 1..NBoundPlaces, vi \in 1..4} :
+           x.l = 5 => x.vi \in {1, 4}}
   \cup {x \in {Idx("big", i, j, l, vi) : i \in 1..Len(BigSpecs), j \in 1..Len(BigNeighbours), l \in 1..2, vi \in 1..3} :
            x.j \in BigSpecs[x.i].nbs /\ x.vi <= Len(BigSpecs[x.i].lens)}
 
@@ -147,6 +204,7 @@ TypeOf(x) ==
     [] x.fam = "vecs" -> Struct(<<F("A", S(x.i)), Field("V", Vec(ElemBounds[x.l][1], ElemBounds[x.l][2], Elem(x.j, x.l))), Field("Z", U(3))>>)
     [] x.fam = "vecu" -> Struct(<<F("A", S(x.i)), Field("V", Vec(ElemBounds[x.l][1], ElemBounds[x.l][2], U(x.j)))>>)
     [] x.fam = "variant" -> Struct(VariantFields(VForm(x), VSel(x), VA1(x), VA2(x), x.l))
+    [] x.fam = "bound" -> IF x.l = 1 THEN BoundType(x.i, x.j) ELSE Struct(BoundFields(x.i, x.j, x.l))
     [] x.fam = "big" -> LET s == BigSpecs[x.i] nb == Field("A", BigNeighbours[x.j]) v == Field("V", Vec(s.min, s.max, Byte)) IN
                         Struct(IF x.l = 1 THEN <<nb, v>> ELSE <<v, nb>>)
 
@@ -164,6 +222,7 @@ ValOf(x) ==
     [] x.fam = "vecu" -> VStruct(<<Val(S(x.i), x.vi),
                                    VList([e \in 1..ElemCount(x.vi) |-> VNum([d \in 1..x.j |-> (16 * e + d) % 256])])>>)
     [] x.fam = "variant" -> VStruct(VariantVals(VForm(x), VSel(x), VA1(x), VA2(x), x.l, x.vi))
+    [] x.fam = "bound" -> IF x.l = 1 THEN BoundVal(x.i, x.j, x.vi) ELSE VStruct(BoundVals(x.i, x.j, x.l, x.vi))
     [] x.fam = "big" -> LET s == BigSpecs[x.i] n == s.lens[((x.vi - 1) % Len(s.lens)) + 1]
                             v == VBytes(Pay(n, 3 + x.vi)) IN
                         VStruct(IF x.l = 1 THEN <<BigNVal(x.j), v>> ELSE <<v, BigNVal(x.j)>>)
@@ -174,11 +233,13 @@ Mutations(e, big) == MutationsOf(e, IF big THEN 0 ELSE 10, LitsBetween(e, 1, IF 
 \* a value without encoding: its unchecked layout (when there is one) must not decode to it
 NegInputs(raw) == IF raw.ok THEN {In("raw", 0, 0, raw.b), In("rawtrail", 0, 0, raw.b \o Trail)} ELSE {}
 
+\* the type is handed to MarshalWithParams / UnmarshalWithParams with its tag as params
+IsTop(x) == x.fam = "top" \/ (x.fam = "bound" /\ x.l = 1)
 CaseRec(x) ==
   LET T == TypeOf(x)  v == ValOf(x)  e == Enc(T, v)
       raw == IF e.ok THEN Fail ELSE RawEnc(T, v)
-      ins == IF e.ok THEN Mutations(e.b, x.fam = "big") ELSE NegInputs(raw) IN
-  [id |-> x, top |-> (x.fam = "top"), t |-> T, v |-> v, enc |-> e, raw |-> raw,
+      ins == IF e.ok THEN Mutations(e.b, x.fam = "big" \/ (x.fam = "bound" /\ BLen(e.b) > 4096)) ELSE NegInputs(raw) IN
+  [id |-> x, top |-> IsTop(x), t |-> T, v |-> v, enc |-> e, raw |-> raw,
    ins |-> {[m |-> i.m, p |-> i.p, d |-> i.d, b |-> i.b, dec |-> Dec(T, i.b)] : i \in ins}]
 
 (* ---------- the laws, per case ---------- *)
